@@ -187,8 +187,8 @@ def Coll.Ok : Coll → Prop
   | .multi rows => RowsOf rows
   | .zipM rows store => ∃ (rs sub : List (Row × Sig)), ZipOk rs ∧ sub.Sublist rs ∧ rows = sub.map (·.1) ∧ store = storeOf rs
   | .zipNM sigs _ => ∀ s ∈ sigs, WF s
-  | .smi rows store => ∃ (rs : List (Row × Sig)) (P : Row × Sig → Bool), SmiOk rs store ∧ rows = (rs.filter P).map (·.1) ∧ SmiExact rs P
-  | .sqlmf all d store => ∃ (rs : List (Row × Sig)), SmiOk rs store ∧ all = rs.map (·.1) ∧ (∀ x ∈ rs, WF x.2) ∧ SqlmfExact rs d
+  | .smi rows store => ∃ (rs : List (Row × Sig)) (P : Row × Sig → Bool), SmiOk rs store ∧ rows = (rs.filter P).map (·.1) ∧ SmiExact Gen.toPicklistExactCsv rs P
+  | .sqlmf all d store => ∃ (rs : List (Row × Sig)), SmiOk rs store ∧ all = rs.map (·.1) ∧ (∀ x ∈ rs, WF x.2) ∧ SqlmfExact Gen.toPicklistExactSql rs d
   | .sbt leaves _ => (∀ s ∈ leaves, WF s) ∧ Homogeneous leaves
   | .sbtM rows store leaves _ =>
     (∃ (rs : List (Row × Sig)), ZipOk rs ∧ rows = rs.map (·.1) ∧ store = storeOf rs ∧ leaves = rs.map (·.2)) ∧
@@ -198,18 +198,18 @@ def Coll.Ok : Coll → Prop
   | .sqlite all _ => RowsOf all ∧ ∀ x ∈ all, WF x.2
 
 /-- the explicit exclusions for one request: picklists are objects (same identity = same picklist); a standalone
-    manifest must not, after this request, re-read a deselected signature through an (identifier, md5[:8]) collision
-    (known finding C12.3) -/
+    manifest must not, after this request, re-read a deselected signature sharing its key -- (name, md5) since cff7217 --
+    with a selected one (what is left of known finding C12.3) -/
 def Coll.Compat : Coll → Crit → Prop
   | .lazy _ d, c => SamePl d c
   | .zipNM _ d, c => SamePl d c
   | .sqlite _ d, c => SamePl d c.forSql
   | .smi rows store, c =>
     ∀ (rs : List (Row × Sig)) (P : Row × Sig → Bool), SmiOk rs store → rows = (rs.filter P).map (·.1) →
-      SmiExact rs (fun x => P x && Sat c x.2)
+      SmiExact Gen.toPicklistExactCsv rs (fun x => P x && Sat c x.2)
   | .sqlmf all d store, c =>
     SamePl d c ∧ ∀ (rs : List (Row × Sig)) (d' : Crit), SmiOk rs store → all = rs.map (·.1) →
-      mergeZip d c = .ok d' → SqlmfExact rs d'
+      mergeZip d c = .ok d' → SqlmfExact Gen.toPicklistExactSql rs d'
   | _, _ => True
 
 /-- what the container lists: `signatures()`, except that the two lazily selecting containers — whose `signatures()`
@@ -280,7 +280,7 @@ theorem select_step {x y : Coll} {c : Crit} (hok : x.Ok) (hc : x.Compat c) (h : 
   | smi rows store =>
     obtain ⟨rs, P, hsm, rfl, hex⟩ := hok
     let P' : Row × Sig → Bool := fun x => P x && Sat c x.2
-    have hex' : SmiExact rs P' := hc rs P hsm rfl
+    have hex' : SmiExact Gen.toPicklistExactCsv rs P' := hc rs P hsm rfl
     have hsel : (rs.filter P).filter (fun x => Sat c x.2) = rs.filter P' := by
       rw [List.filter_filter]
       apply List.filter_congr
@@ -309,7 +309,7 @@ theorem select_step {x y : Coll} {c : Crit} (hok : x.Ok) (hc : x.Compat c) (h : 
   | sqlmf all d store =>
     obtain ⟨rs, hsm, rfl, hwf, hex⟩ := hok
     obtain ⟨d', hm, rfl⟩ := sqlmf_select h
-    have hex' : SqlmfExact rs d' := hc.2 rs d' hsm rfl hm
+    have hex' : SqlmfExact Gen.toPicklistExactSql rs d' := hc.2 rs d' hsm rfl hm
     refine ⟨⟨rs, hsm, rfl, hwf, hex'⟩, ?_⟩
     obtain ⟨l, hl, hperm⟩ := sqlmf_signatures_exact d hsm hwf hex
     obtain ⟨l', hl', hperm'⟩ := sqlmf_signatures_exact d' hsm hwf hex'
